@@ -504,17 +504,20 @@ fn p_heavy(r: &mut Rng, n: usize) -> Vec<Case> {
             set.push(w.clone());
         }
     }
+    // short haystacks only: the specification oracles are brute force (quadratic in the haystack,
+    // linear in the total pattern length) and this case is about construction, not searching
     let mut hs: Vec<Word> = vec![vec![heavy; 8], extras.concat()];
-    let mut h = vec![heavy; lo + 2];
+    let mut h = vec![heavy; 5];
     h.extend_from_slice(&extras[0]);
     hs.push(h);
+    let _ = lo;
     let kind = r.below(2) as u8;
     let vals = values(r, "u32", set.len());
     vec![mk(Spec { id: format!("hv{}", n), variant, kind, nfb: pick_nfb(r), entry: 'V', vt: "u32" }, utf8, &set, Some(&vals), &hs)]
 }
 
 fn p_perm(r: &mut Rng, n: usize) -> Vec<Case> {
-    if n % 48 == 17 {
+    if n % 96 == 17 {
         return p_heavy(r, n);
     }
     let variant = r.pick(&['B', 'C']);
